@@ -31,6 +31,10 @@ KINDS = {
     "delete-blank": ("@@\nvar x expression\n@@\n-import _ \"{T}\"\n\n-legacy(x)\n+builtin(x)\n", ["minus"]),
     "delete-dot": ("@@\nvar x expression\n@@\n-import . \"{T}\"\n\n-legacy(x)\n+builtin(x)\n", ["minus"]),
     "replace-blank": ("@@\nvar x expression\n@@\n-import _ \"{T}\"\n+import _ \"{N}\"\n\n-legacy(x)\n+builtin(x)\n", ["minus"]),
+    # a blank / dot import on a context line - a guard, or the documented way to match any import: it stays (repo fix 6680ffc)
+    "keep-blank": ("@@\nvar x expression\n@@\n import _ \"{T}\"\n\n-legacy(x)\n+builtin(x)\n", ["context"]),
+    "keep-dot": ("@@\nvar x expression\n@@\n import . \"{T}\"\n\n-legacy(x)\n+builtin(x)\n", ["context"]),
+    "keep-blank-twice": ("@@\nvar x expression\n@@\n import _ \"{T}\"\n\n-legacy(x)\n+mid(x)\n\n@@\nvar x expression\n@@\n import _ \"{T}\"\n\n-mid(x)\n+builtin(x)\n", ["context"]),
     # two changes add the same import; only the later one applies to the file
     "add-after-unmatched-add": ("@@\nvar x expression\n@@\n+import \"{N}\"\n\n-neverThere(x)\n+{n}.G(x)\n\n@@\nvar x expression\n@@\n+import \"{N}\"\n\n-legacy(x)\n+{n}.F(x)\n", []),
     # an earlier change of the run reproduces code in which a parameter has the package's name (trace(url.Host) -> url.Host)
@@ -55,9 +59,9 @@ def gen(rng, k):
     npath, nreal = NEW[(k // 7) % 2]
     # how the file imports the target; how the patch states it
     fform = rng.choice([None, None, "alias", treal])          # file-side name
-    if kind in ("delete-blank", "replace-blank"):
+    if kind in ("delete-blank", "replace-blank", "keep-blank", "keep-blank-twice"):
         fform = "_"
-    if kind == "delete-dot":
+    if kind in ("delete-dot", "keep-dot"):
         fform = "."
     if kind == "delete-two-names":
         fform = rng.choice(["alias", treal])
@@ -90,7 +94,7 @@ def gen(rng, k):
     elif kind == "introduce-then-partial":
         body.append("func a() { legacyA(1); legacyB(2); legacyA(3) }")
         remaining = True           # the references change 1 put in stay
-    elif kind in ("add", "add-named", "add-after-unmatched-add", "delete-blank", "delete-dot", "replace-blank"):
+    elif kind in ("add", "add-named", "add-after-unmatched-add", "delete-blank", "delete-dot", "replace-blank", "keep-blank", "keep-dot", "keep-blank-twice"):
         body.append("func a() { legacy(1); legacy(a + b) }")
         if has_target and fform not in ("_", "."):
             body.append("func keep() { %s.Other() }" % t)
@@ -171,7 +175,7 @@ def judge(c, o):
     mentioned = set()
     if c["roles"]:
         mentioned.add(c["target"][1])
-    if c["kind"] not in ("delete", "match-only", "metavar-unalias", "delete-two-names", "delete-after-reproduce"):
+    if c["kind"] not in ("delete", "match-only", "metavar-unalias", "delete-two-names", "delete-after-reproduce", "keep-blank", "keep-dot", "keep-blank-twice"):
         mentioned.add(c["new"][0])
     if c["kind"] in ("rename", "metavar-unalias"):
         mentioned.add(c["target"][1])
@@ -213,6 +217,10 @@ def judge(c, o):
                         "unnamed-import-base-guess" if base_differs else None))
         if not still and c["roles"][0].startswith("minus") and O[key] >= I[key] and c["kind"] != "rename" and not (c["kind"] == "metavar-unalias" and fform is None):
             bad.append(("the import %s on a '-' line is still there although nothing refers to %s any more" % (spec(*key), name), None))
+        if c["roles"] == ["context"] and fform in ("_", ".") and O[key] < I[key]:
+            bad.append(("the import %s, which the patch has on a context line, was deleted" % spec(*key), None))
+        if c["kind"] == "keep-blank-twice" and "legacy(" in out:
+            bad.append(("the second change, guarded by the same context import %s, did not apply after the first" % spec(*key), None))
         if c["kind"] == "delete-two-names":
             k2 = ("dup", tpath)
             still2 = uses_name(out, "dup")
